@@ -21,6 +21,11 @@ def _fn_of(ob):
     return parts[1] if len(parts) > 1 else ob
 
 
+def _ob_match(kf, ob):
+    o = kf.get("obligation")
+    return ob in o if isinstance(o, list) else o == ob
+
+
 def _pred_ok(pred, inp):
     """known-finding input predicate: a Python expression over a, b, op, goal (evaluated on replay inputs only)"""
     try:
@@ -39,7 +44,7 @@ def run(pid, cfg, failed, findings, repo, scratch):
     pre_known = []
     by_ob = {}
     for ob, fl in by_ob_all.items():
-        kf = [k for k in findings if k.get("obligation") == ob and not k.get("input_predicate")]
+        kf = [k for k in findings if _ob_match(k, ob) and not k.get("input_predicate")]
         if kf:
             pre_known.append("%s: %s" % (ob, kf[0].get("what", kf[0].get("site", ""))))
         else:
@@ -75,7 +80,7 @@ def run(pid, cfg, failed, findings, repo, scratch):
             inputs = fails_by_fn.get(ob)
         matched = None
         for kf in findings:
-            if kf.get("obligation") != ob:
+            if not _ob_match(kf, ob):
                 continue
             pred = kf.get("input_predicate")
             if pred and inputs:
